@@ -171,6 +171,26 @@ def r3_terminator(prog, rep: Report, fam: Family, rule: str = "C11.R3"):
             continue
         for r in rets:
             e = flow.expand(r.value) if r.value is not None else None
+            # line[:-1] if line.endswith("\n") else line      (line = <handle>.readline()[.decode()]): exactly one terminator removed
+            if isinstance(e, ast.IfExp) and isinstance(e.test, ast.Call) and isinstance(e.test.func, ast.Attribute) \
+                    and e.test.func.attr == "endswith" and len(e.test.args) == 1 and const_value(e.test.args[0], None) in ("\n", b"\n") \
+                    and isinstance(e.body, ast.Subscript) and isinstance(e.body.slice, ast.Slice) and e.body.slice.lower is None \
+                    and const_value(e.body.slice.upper, None) == -1 and e.body.slice.step is None \
+                    and src(e.body.value) == src(e.test.func.value) == src(e.orelse):
+                base_ = flow.expand(e.orelse) if isinstance(e.orelse, ast.Name) else e.orelse
+                chain_ok = False
+                b_ = base_
+                while isinstance(b_, ast.Call) and isinstance(b_.func, ast.Attribute):
+                    if b_.func.attr == "readline":
+                        d_ = dotted(flow.expand(b_.func.value))
+                        chain_ok = bool(d_) and len(d_) == 2 and d_[0] == f.self_name and d_[1] in handles
+                        break
+                    if b_.func.attr != "decode":
+                        break
+                    b_ = flow.expand(b_.func.value)
+                if chain_ok:
+                    rep.ok(rule, f, "return", f"last character sliced off under an endswith guard: {src(e)}")
+                    continue
             ops = []
             ok_shape = True
             sliced = None
@@ -465,6 +485,16 @@ def _iter_sources(it: ast.expr, flow: Flow, sel: str, self_name) -> Optional[Set
         return out
     if _is_slice_mapping(it, sel, self_name):
         return {"slice"}
+    # start, stop, step = selector.indices(len(self));  range(start, stop, step)
+    if isinstance(it, ast.Call) and isinstance(it.func, ast.Name) and it.func.id == "range" and len(it.args) == 3 and not it.keywords \
+            and all(isinstance(a, ast.Name) for a in it.args):
+        ds = [flow.single_def(a) for a in it.args]
+        if all(d is not None and d.kind == "unpack" and d.index is not None and tuple(d.index) == (k,) for k, d in enumerate(ds)) \
+                and len({id(d.value) for d in ds}) == 1:
+            v = ds[0].value
+            if isinstance(v, ast.Call) and isinstance(v.func, ast.Attribute) and v.func.attr == "indices" \
+                    and isinstance(v.func.value, ast.Name) and v.func.value.id == sel and len(v.args) == 1 and _is_len_self(v.args[0], self_name):
+                return {"slice"}
     if isinstance(it, ast.IfExp):
         a, b = _iter_sources(it.body, flow, sel, self_name), _iter_sources(it.orelse, flow, sel, self_name)
         if a is None or b is None:
